@@ -254,6 +254,7 @@ func (in *Interp) visitInstr(fr *frame, instr ssa.Instruction) continuation {
 		if instr.Heap {
 			addr = new(value)
 			fr.env[fr.info.idx[instr]] = addr
+			in.trackAlloc(addr, mustDeref(instr.Type()))
 		} else {
 			addr = fr.env[fr.info.idx[instr]].(*value)
 		}
@@ -269,7 +270,12 @@ func (in *Interp) visitInstr(fr *frame, instr ssa.Instruction) continuation {
 		fr.env[fr.info.idx[instr]] = slice[:in.asInt64(fr.get(instr.Len))]
 
 	case *ssa.MakeMap:
-		fr.env[fr.info.idx[instr]] = newSmap(instr.Type().Underlying().(*types.Map))
+		m := newSmap(instr.Type().Underlying().(*types.Map))
+		if in.trackHeap {
+			in.allocSeq++
+			m.id = in.allocSeq
+		}
+		fr.env[fr.info.idx[instr]] = m
 
 	case *ssa.Range:
 		fr.env[fr.info.idx[instr]] = in.rangeIter(fr.get(instr.X))
@@ -284,6 +290,9 @@ func (in *Interp) visitInstr(fr *frame, instr ssa.Instruction) continuation {
 			in.unsupported("FieldAddr on %T in %s", *p, fr.fn)
 		}
 		fr.env[fr.info.idx[instr]] = &s[instr.Field]
+		if in.trackHeap {
+			in.trackField(p, &s[instr.Field], mustDeref(instr.X.Type()).Underlying().(*types.Struct).Field(instr.Field).Name())
+		}
 
 	case *ssa.Field:
 		s, ok := fr.get(instr.X).(structure)
